@@ -1,0 +1,80 @@
+//go:build verif
+
+package stake
+
+import (
+	"github.com/rigochain/rigo-go/ledger"
+	"github.com/rigochain/rigo-go/types/xerrors"
+)
+
+type VerifVal struct {
+	Addr  []byte
+	Power int64
+}
+
+// VerifLastValidators returns the validator set last reported to consensus (in-memory). Read-only.
+func (ctrler *StakeCtrler) VerifLastValidators() []VerifVal {
+	var ret []VerifVal
+	for _, v := range ctrler.lastValidators {
+		ret = append(ret, VerifVal{Addr: append([]byte(nil), v.Addr...), Power: v.TotalPower})
+	}
+	return ret
+}
+
+// VerifLimiter returns the limiter's in-memory totals. Read-only.
+func (ctrler *StakeCtrler) VerifLimiter() (base, updated int64, objs []VerifVal) {
+	sl := ctrler.stakeLimiter
+	for _, o := range sl.powerObjs {
+		objs = append(objs, VerifVal{Addr: append([]byte(nil), o.Addr...), Power: o.Power})
+	}
+	return sl.baseTotalPower, sl.updatedPower, objs
+}
+
+func (ctrler *StakeCtrler) VerifReadDelegateesAt(height int64, cb func(*Delegatee)) error {
+	if height <= 0 {
+		return ctrler.delegateeLedger.IterateReadAllItems(func(d *Delegatee) xerrors.XError { cb(d); return nil })
+	}
+	l, xerr := ctrler.delegateeLedger.ImmutableLedgerAt(height, 0)
+	if xerr != nil {
+		return xerr
+	}
+	return l.IterateReadAllItems(func(d *Delegatee) xerrors.XError { cb(d); return nil })
+}
+
+func (ctrler *StakeCtrler) VerifReadFrozenAt(height int64, cb func(*Stake)) error {
+	if height <= 0 {
+		return ctrler.frozenLedger.IterateReadAllItems(func(d *Stake) xerrors.XError { cb(d); return nil })
+	}
+	l, xerr := ctrler.frozenLedger.ImmutableLedgerAt(height, 0)
+	if xerr != nil {
+		return xerr
+	}
+	return l.IterateReadAllItems(func(d *Stake) xerrors.XError { cb(d); return nil })
+}
+
+func (ctrler *StakeCtrler) VerifReadRewardsAt(height int64, cb func(*Reward)) error {
+	if height <= 0 {
+		return ctrler.rewardLedger.IterateReadAllItems(func(d *Reward) xerrors.XError { cb(d); return nil })
+	}
+	l, xerr := ctrler.rewardLedger.ImmutableLedgerAt(height, 0)
+	if xerr != nil {
+		return xerr
+	}
+	return l.IterateReadAllItems(func(d *Reward) xerrors.XError { cb(d); return nil })
+}
+
+func (ctrler *StakeCtrler) VerifLedgers() (ledger.IFinalityLedger[*Delegatee], ledger.IFinalityLedger[*Stake], ledger.IFinalityLedger[*Reward]) {
+	return ctrler.delegateeLedger, ctrler.frozenLedger, ctrler.rewardLedger
+}
+
+// VerifCloseRest closes the stores StakeCtrler.Close() leaves open.
+func (ctrler *StakeCtrler) VerifCloseRest() {
+	if ctrler.rewardLedger != nil {
+		_ = ctrler.rewardLedger.Close()
+		ctrler.rewardLedger = nil
+	}
+	if ctrler.rwdHashDB != nil {
+		_ = ctrler.rwdHashDB.Close()
+		ctrler.rwdHashDB = nil
+	}
+}
